@@ -648,5 +648,7 @@ int __wrap_getaddrinfo(const char *node, const char *service, const struct addri
 	if (hints) h = *hints; else memset(&h, 0, sizeof(h));
 	h.ai_flags &= ~AI_ADDRCONFIG;
 	h.ai_flags |= AI_NUMERICHOST | AI_NUMERICSERV;	/* the sandbox has no resolver */
+	/* the simulated hosts file: the one name the programs look up themselves (iodined -n auto / -l external) */
+	if (node && !strcmp(node, "resolver1.opendns.com")) node = "208.67.222.222";
 	return __real_getaddrinfo(node, service, &h, res);
 }
